@@ -36,6 +36,6 @@ def brun : BState → List BOp → Option BState
   | st, op :: r => (bstep st op).bind fun p => brun p.1 r
 
 def BState.toArena (st : BState) : BArena :=
-  st.zipIdx.map fun p => (p.2, p.1.1, p.1.2.map bT)
+  st.zipIdx.map fun p => (p.2, (p.1.1, defaultLoc), p.1.2.map (fun i => bT (i, defaultLoc)))
 
 end Walrus
